@@ -71,8 +71,8 @@ func ServeUDP(c *net.UDPConn, h Handler, opts UDPServerOpts) error {
 			continue
 		}
 
-		q := new(dns.Msg)
-		if err := q.Unpack((*rb)[:n]); err != nil {
+		q, err := unpackQuery((*rb)[:n])
+		if err != nil {
 			logger.Warn("invalid msg", zap.Error(err), zap.Binary("msg", (*rb)[:n]), zap.Stringer("from", remoteAddr))
 			continue
 		}
